@@ -6,10 +6,12 @@
      25 csv faithful (delim (#field ...))
      7 json cut (#path limit #data) | 8 ((#path limit) ... #data)
                                          obs = (validIn validOut out ((index strlen valid exists isString) ...))
+     30+k : DecodeToJson of scanner k (k = 1..5) on a list of cases sharing one Root (Model/Decoders/ToJson.v)
+     36 : the json decoder against encoding/json (ToJson.v json_roundtrip_run)
    No proofs here. *)
 From Verif Require Import Base.Sx Base.GoSem Model.Decoders.Common Model.Decoders.Cri Model.Decoders.Postgres
   Model.Decoders.Nginx Model.Decoders.Syslog Model.Decoders.SyslogRfc3164 Model.Decoders.SyslogRfc5424
-  Model.Decoders.Csv Model.Decoders.JsonCut.
+  Model.Decoders.Csv Model.Decoders.JsonCut Model.Decoders.ToJson.
 
 Definition scan_model (k : Z) (case : sx) : option sx :=
   match k, case with
@@ -159,6 +161,8 @@ Definition c12_entry (which : Z) (case obs : sx) : verdict :=
     match scan_model which case with Some m => scan_verdict m obs | None => BadCase end
   else if (10 <=? which) && (which <? 20) then
     match scan_model (which - 10) case with Some m => total_verdict m obs | None => BadCase end
+  else if which =? 36 then json_roundtrip_run case obs
+  else if (31 <=? which) && (which <=? 35) then tojson_run scan_model (which - 30) case obs
   else if (20 <=? which) && (which <? 30) then
     match faithful_case (which - 20) case with
     | Some (line, expected) =>
